@@ -312,3 +312,86 @@ func (f *Func) errHandled(body *Body, call *ast.CallExpr) (bool, string) {
 	}
 	return true, "tested against nil on every path"
 }
+
+// recvName returns the receiver identifier of a method ("" if none / unnamed).
+func recvName(f *Func) string {
+	if f.Decl.Recv == nil || len(f.Decl.Recv.List) == 0 || len(f.Decl.Recv.List[0].Names) == 0 {
+		return ""
+	}
+	return f.Decl.Recv.List[0].Names[0].Name
+}
+
+// paramIdent returns the i-th parameter identifier (flattening grouped names).
+func paramIdent(f *Func, i int) *ast.Ident {
+	k := 0
+	for _, p := range f.Decl.Type.Params.List {
+		for _, n := range p.Names {
+			if k == i {
+				return n
+			}
+			k++
+		}
+	}
+	return nil
+}
+
+func paramName(f *Func, i int) string {
+	if id := paramIdent(f, i); id != nil {
+		return id.Name
+	}
+	return "?"
+}
+
+// litParamName: i-th parameter name of a function literal.
+func litParamName(l *ast.FuncLit, i int) string {
+	k := 0
+	for _, p := range l.Type.Params.List {
+		for _, n := range p.Names {
+			if k == i {
+				return n.Name
+			}
+			k++
+		}
+	}
+	return "?"
+}
+
+// resultIdent returns the i-th NAMED result identifier, or nil.
+func resultIdent(f *Func, i int) *ast.Ident {
+	if f.Decl.Type.Results == nil {
+		return nil
+	}
+	k := 0
+	for _, p := range f.Decl.Type.Results.List {
+		for _, n := range p.Names {
+			if k == i {
+				return n
+			}
+			k++
+		}
+	}
+	return nil
+}
+
+// definedBy returns the (single) defining RHS of a local variable: `x := rhs` / `x, y := call` (then the call and the index).
+func (f *Func) definedBy(body ast.Node, obj types.Object) (rhs ast.Expr, idx int, ok bool) {
+	ast.Inspect(body, func(n ast.Node) bool {
+		as, isAs := n.(*ast.AssignStmt)
+		if !isAs {
+			return true
+		}
+		for i, l := range as.Lhs {
+			id, isId := l.(*ast.Ident)
+			if !isId || f.ObjOf(id) != obj || f.Pkg.TypesInfo.Defs[id] == nil {
+				continue
+			}
+			if len(as.Rhs) == len(as.Lhs) {
+				rhs, idx, ok = as.Rhs[i], 0, true
+			} else if len(as.Rhs) == 1 {
+				rhs, idx, ok = as.Rhs[0], i, true
+			}
+		}
+		return true
+	})
+	return
+}
